@@ -272,6 +272,32 @@ class Translator:
             return f
         raise Refuse(f"assignment target {ast.dump(tgt)[:80]}")
 
+    def bind_args(self, name, args):
+        """statements binding the callee's parameters (positional arguments, then constant defaults).  Callee and caller share
+        one local environment in MiniPy, so a caller with local variables of its own is refused."""
+        m = self.classes["UKVFile"].get(name)
+        if m is None or self._is_prop(m):
+            raise Refuse(f"self.{name}()")
+        if name not in self.defined:
+            raise Refuse(f"self.{name}() called before its definition was translated")
+        if self.ren:
+            raise Refuse(f"self.{name}(...) called from a method that has local variables")
+        params = [a.arg for a in m.args.args[1:]]
+        defaults = dict(zip(params[len(params) - len(m.args.defaults):], m.args.defaults))
+        if len(args) > len(params) or m.args.kwonlyargs or m.args.vararg or m.args.kwarg:
+            raise Refuse(f"self.{name}: argument list")
+        out = []
+        for i, p in enumerate(params):
+            if i < len(args):
+                e = self.ex(args[i])
+            elif p in defaults and isinstance(defaults[p], ast.Constant):
+                e = self.ex(defaults[p])
+            else:
+                raise Refuse(f"self.{name}: parameter {p} not given")
+            if e != f"(ELocal {cq_str(p)})":                     # binding a parameter to itself is a no-op
+                out.append(f"(SAssign {cq_str(p)} {e})")
+        return out
+
     def st(self, n):
         if isinstance(n, ast.Expr) and isinstance(n.value, ast.Constant):
             return []
@@ -280,6 +306,11 @@ class Translator:
         if isinstance(n, ast.Break):
             return ["SBreak"]
         if isinstance(n, ast.Return):
+            if n.value is not None and self._self_call(n.value):                   # return self.<method>(args)
+                name, args = self._self_call(n.value)
+                return self.bind_args(name, args) + [f"(SCallRet {name}_prog)"]
+            if isinstance(n.value, ast.Name) and n.value.id == "self":
+                return ["(SReturn ESelf)"]
             return [f"(SReturn {self.ex(n.value) if n.value is not None else '(EConst VNone)'})"]
         if isinstance(n, ast.Raise):
             if n.exc is None:
@@ -333,16 +364,10 @@ class Translator:
                     return ["SClose"]
                 raise Refuse(f"stream call {m}/{len(args)}")
             uc = self._self_call(n.value)
-            if uc and not uc[1]:
-                name = uc[0]
-                if name == "write_header":
+            if uc:
+                if uc[0] == "write_header" and not uc[1]:
                     return ["SUnmodelled"]
-                m = self.classes["UKVFile"].get(name)
-                if m is None or self._is_prop(m) or len(m.args.args) != 1:
-                    raise Refuse(f"self.{name}()")
-                if name not in self.defined:
-                    raise Refuse(f"self.{name}() called before its definition was translated")
-                return [f"(SCall {name}_prog)"]
+                return self.bind_args(uc[0], uc[1]) + [f"(SCall {uc[0]}_prog)"]
             raise Refuse(f"call statement {ast.dump(n.value)[:100]}")
         if isinstance(n, ast.While) and not n.orelse and isinstance(n.test, ast.NamedExpr) and isinstance(n.test.target, ast.Name):
             x = self.ren.get(n.test.target.id, n.test.target.id)
@@ -408,7 +433,7 @@ class Translator:
         return out
 
 
-METHODS = ["get", "put", "close", "keys", "read_header", "map_blocks", "open"]
+METHODS = ["get", "put", "close", "keys", "read_header", "map_blocks", "open", "__getitem__", "__setitem__", "__enter__", "__exit__"]
 
 
 def translate(repo):
@@ -433,8 +458,9 @@ def translate(repo):
             continue
         body, params = T.method(name)
         out.append(f"(* def {name}(self{''.join(', ' + p for p in params)})   locals: {', '.join(v + ' = ' + k for k, v in T.last_ren.items()) or '-'} *)")
-        out.append(f"Definition {name}_params : list string := [{'; '.join(cq_str(p) for p in params)}].")
-        out.append(f"Definition {name}_prog : stmt :=\n  {body}.\n")
+        cname = name.strip("_") if name.startswith("__") else name       # __getitem__ -> getitem_prog
+        out.append(f"Definition {cname}_params : list string := [{'; '.join(cq_str(p) for p in params)}].")
+        out.append(f"Definition {cname}_prog : stmt :=\n  {body}.\n")
     return "\n".join(out) + "\n"
 
 
